@@ -1,4 +1,5 @@
 import Tuc.Model.Stream
+import Tuc.Model.Args
 import Tuc.Lemmas.Run
 /-!
 # C04 — `-M` output does not depend on how the input is chunked
@@ -14,7 +15,7 @@ consumes at most one filler per call; see the counter-example at the end), so it
 Plan of the proof.  The canonical run is the one where no byte is tagged (`untag`): the whole
 record stays pending and is written by the delimiter / EOL / EOF that ends the field.  A run over
 an arbitrary tagging is, at every moment, in one of three relations with the canonical run over the
-same bytes (`sim`, `streamRun_doomed`):
+same bytes (`streamRun_sim`, `streamRun_doomed`):
 * same state, same output so far;
 * the tagged run has already written a non-empty prefix `p₁` of the pending piece
   (`printBof … p₁ false = some (w, i₁)`): it is `w` ahead, its `bof_idx` is `i₁`, its `trunc` is
@@ -22,7 +23,9 @@ same bytes (`sim`, `streamRun_doomed`):
 * the tagged run has panicked in `print_bof` (`matches` was an `Err`): the canonical run is in a
   state where the very same call is the next thing it does, and it writes nothing before.
 Main results: `streamRun_untag`, `tag_independent`, `cutBytesStream_canonical`,
-`chunk_independent`, `buffer_size_irrelevant`.
+`chunk_independent`, `buffer_size_irrelevant`; the hypothesis is discharged for everything `-f` can
+parse to (`boundsListOfString_noAdj`, `streamOptOf_noAdj`), which gives the statement at the level
+of `main`: `dispatch_fixedMemory_chunk_independent`.
 -/
 namespace Tuc
 
@@ -233,11 +236,11 @@ theorem streamStep_tag_irrel (o : StreamOpt) (st : SState) (c : UInt8) (t t' : B
       | some x =>
         rw [streamStep_delim_some _ _ _ _ hs' hc hd x.1 x.2 hp, streamStep_delim_some _ _ _ _ hs' hc hd x.1 x.2 hp]
 
-theorem streamRun_cons (o : StreamOpt) (st : SState) (c : UInt8) (t : Bool) (l : List (UInt8 × Bool)) :
+private theorem streamRun_cons (o : StreamOpt) (st : SState) (c : UInt8) (t : Bool) (l : List (UInt8 × Bool)) :
     streamRun o st ((c, t) :: l) = (streamStep o st c t).1.seq (streamRun o (streamStep o st c t).2 l) := by
   rfl
 
-theorem Run.panic_seq (r : Run) : Run.panic.seq r = Run.panic := by
+private theorem Run.panic_seq (r : Run) : Run.panic.seq r = Run.panic := by
   simp [Run.seq, Run.panic]
 
 /-- a state whose pending bound cannot be matched against the current field (`matches` is an
@@ -301,7 +304,7 @@ theorem endOfRecord_flushed (o : StreamOpt) (hwf : NoAdjFillers o.bounds) (b : N
     canonical (untagged) run equals the tagged run; (2) from a state where the tagged run has
     already flushed the non-empty prefix `p₁` of the pending piece, writing `w`, the canonical run
     equals `w` followed by the tagged run. -/
-theorem sim (o : StreamOpt) (hwf : NoAdjFillers o.bounds) (l : List (UInt8 × Bool)) :
+theorem streamRun_sim (o : StreamOpt) (hwf : NoAdjFillers o.bounds) (l : List (UInt8 × Bool)) :
     (∀ st : SState, streamRun o st (untag l) = streamRun o st l) ∧
     (∀ (b : Nat) (curr : Int) (tr : Bool) (p₁ p₂ w : Bytes) (i₁ : Nat), p₁ ≠ [] →
       printBof o b curr tr p₁ false = some (w, i₁) →
@@ -397,7 +400,7 @@ theorem sim (o : StreamOpt) (hwf : NoAdjFillers o.bounds) (l : List (UInt8 × Bo
     with no chunk end at all (the whole input in one unbounded buffer, EOF flushing the rest). -/
 theorem streamRun_untag (o : StreamOpt) (hwf : NoAdjFillers o.bounds) (st : SState)
     (l : List (UInt8 × Bool)) : streamRun o st l = streamRun o st (untag l) :=
-  ((sim o hwf l).1 st).symm
+  ((streamRun_sim o hwf l).1 st).symm
 
 theorem untag_eq_map (l : List (UInt8 × Bool)) :
     untag l = (l.map Prod.fst).map fun c => (c, false) := by
@@ -478,22 +481,22 @@ theorem short_reads_irrelevant (o : StreamOpt) (hwf : NoAdjFillers o.bounds) (se
 
 /-! ## a concrete instance: `tuc -M -d - -f 2` on `"ab-cd-e\n"` -/
 
-def exOpt : StreamOpt :=
+def c04ExOpt : StreamOpt :=
   { delimiter := 0x2d, replaceDelimiter := none, join := false, eol := .newline,
     fallbackOob := none, bounds := [.bound { l := .some 2, r := .some 2, isLast := true }],
     lastInterestingField := .some 2 }
 
-example : NoAdjFillers exOpt.bounds := by simp [exOpt, NoAdjFillers]
+example : NoAdjFillers c04ExOpt.bounds := by simp [c04ExOpt, NoAdjFillers]
 
 -- "ab-cd-e\n" in one read, in reads of 3 bytes, cut in the middle of the selected field and
 -- right before a delimiter, byte by byte: always "cd\n", exit 0
-example : cutBytesStream exOpt [[0x61, 0x62, 0x2d, 0x63, 0x64, 0x2d, 0x65, 0x0a]]
+example : cutBytesStream c04ExOpt [[0x61, 0x62, 0x2d, 0x63, 0x64, 0x2d, 0x65, 0x0a]]
     = Run.ok [0x63, 0x64, 0x0a] := by decide
-example : cutBytesStream exOpt (chunksOf 2 [0x61, 0x62, 0x2d, 0x63, 0x64, 0x2d, 0x65, 0x0a])
+example : cutBytesStream c04ExOpt (chunksOf 2 [0x61, 0x62, 0x2d, 0x63, 0x64, 0x2d, 0x65, 0x0a])
     = Run.ok [0x63, 0x64, 0x0a] := by decide
-example : cutBytesStream exOpt [[0x61, 0x62, 0x2d, 0x63], [0x64], [0x2d, 0x65, 0x0a]]
+example : cutBytesStream c04ExOpt [[0x61, 0x62, 0x2d, 0x63], [0x64], [0x2d, 0x65, 0x0a]]
     = Run.ok [0x63, 0x64, 0x0a] := by decide
-example : cutBytesStream exOpt [[0x61], [0x62], [0x2d], [0x63], [0x64], [0x2d], [0x65], [0x0a]]
+example : cutBytesStream c04ExOpt [[0x61], [0x62], [0x2d], [0x63], [0x64], [0x2d], [0x65], [0x0a]]
     = Run.ok [0x63, 0x64, 0x0a] := by decide
 
 /-! ## `NoAdjFillers` is needed
@@ -504,15 +507,15 @@ where it expects a bound and the record ends with the fallback rule (here: exit 
 the first call drops the piece `a` for the same reason, the second one consumes `y` and prints
 the rest of the field (`xyb`, exit 0). -/
 
-def adjOpt : StreamOpt :=
+def c04AdjOpt : StreamOpt :=
   { delimiter := 0x2d, replaceDelimiter := none, join := false, eol := .newline,
     fallbackOob := none,
     bounds := [.filler [0x78], .filler [0x79], .bound { l := .some 1, r := .some 1, isLast := true }],
     lastInterestingField := .some 1 }
 
-example : ¬ NoAdjFillers adjOpt.bounds := by simp [adjOpt, NoAdjFillers]
-example : cutBytesStream adjOpt [[0x61, 0x62, 0x0a]] = ⟨[0x78, 0x79], .fail⟩ := by decide
-example : cutBytesStream adjOpt [[0x61], [0x62, 0x0a]] = Run.ok [0x78, 0x79, 0x62, 0x0a] := by decide
+example : ¬ NoAdjFillers c04AdjOpt.bounds := by simp [c04AdjOpt, NoAdjFillers]
+example : cutBytesStream c04AdjOpt [[0x61, 0x62, 0x0a]] = ⟨[0x78, 0x79], .fail⟩ := by decide
+example : cutBytesStream c04AdjOpt [[0x61], [0x62, 0x0a]] = Run.ok [0x78, 0x79, 0x62, 0x0a] := by decide
 
 /-- nothing of a chunk is kept once the chunk ends: after a byte tagged "last of its chunk" the
     pending piece is empty (what crosses a chunk boundary is counters and flags only) -/
@@ -537,5 +540,283 @@ theorem piece_empty_at_chunk_end (o : StreamOpt) (st : SState) (c : UInt8) (hp :
 example : NoAdjFillers [.filler [0x61], .bound { l := .some 1, r := .some 1 }, .filler [0x62],
     .bound { l := .some 2, r := .some 2 }] := by
   simp [NoAdjFillers]
+
+/-! ## the hypothesis `NoAdjFillers` is what the bounds parser guarantees -/
+
+def BoF.isFiller : BoF → Bool
+  | .filler _ => true
+  | .bound _ => false
+
+theorem noAdj_singleton (a : BoF) : NoAdjFillers [a] := by
+  cases a <;> simp [NoAdjFillers]
+
+theorem noAdj_cons_cons (a b : BoF) (t : List BoF) :
+    NoAdjFillers (a :: b :: t) ↔
+      (a.isFiller = false ∨ b.isFiller = false) ∧ NoAdjFillers (b :: t) := by
+  cases a <;> cases b <;> simp [NoAdjFillers, BoF.isFiller]
+
+theorem noAdj_append (l₁ l₂ : List BoF) :
+    NoAdjFillers (l₁ ++ l₂) ↔ NoAdjFillers l₁ ∧ NoAdjFillers l₂ ∧
+      (∀ a b, l₁.getLast? = some a → l₂.head? = some b → a.isFiller = false ∨ b.isFiller = false) := by
+  induction l₁ with
+  | nil => simp [NoAdjFillers]
+  | cons a t ih =>
+    cases t with
+    | nil =>
+      cases l₂ with
+      | nil => simp [noAdj_singleton, NoAdjFillers]
+      | cons b t₂ => simp [noAdj_cons_cons, noAdj_singleton, and_comm]
+    | cons a' t' =>
+      rw [List.cons_append, List.cons_append, noAdj_cons_cons, ← List.cons_append, ih,
+        noAdj_cons_cons, List.getLast?_cons_cons]
+      constructor
+      · rintro ⟨h1, h2, h3, h4⟩; exact ⟨⟨h1, h2⟩, h3, h4⟩
+      · rintro ⟨⟨h1, h2⟩, h3, h4⟩; exact ⟨h1, h2, h3, h4⟩
+
+/-- `NoAdjFillers` only looks at which elements are fillers -/
+theorem noAdj_shape (l l' : List BoF) (h : l.map BoF.isFiller = l'.map BoF.isFiller) :
+    NoAdjFillers l → NoAdjFillers l' := by
+  induction l generalizing l' with
+  | nil =>
+    cases l' with
+    | nil => exact id
+    | cons _ _ => simp at h
+  | cons a t ih =>
+    cases l' with
+    | nil => simp at h
+    | cons a' t' =>
+      simp only [List.map_cons, List.cons.injEq] at h
+      obtain ⟨ha, ht⟩ := h
+      cases t with
+      | nil =>
+        cases t' with
+        | nil => exact fun _ => noAdj_singleton _
+        | cons _ _ => simp at ht
+      | cons b t₂ =>
+        cases t' with
+        | nil => simp at ht
+        | cons b' t₂' =>
+          have hb : b.isFiller = b'.isFiller := by
+            simp only [List.map_cons, List.cons.injEq] at ht; exact ht.1
+          rw [noAdj_cons_cons, noAdj_cons_cons, ha, hb]
+          exact fun ⟨h1, h2⟩ => ⟨h1, ih _ ht h2⟩
+
+theorem noAdj_map_bound (bs : List UserBounds) : NoAdjFillers (bs.map BoF.bound) := by
+  induction bs with
+  | nil => trivial
+  | cons b t ih => simpa [NoAdjFillers] using ih
+
+theorem markLast_shape (l l' : List BoF) (h : markLast l = some l') :
+    l.map BoF.isFiller = l'.map BoF.isFiller := by
+  induction l generalizing l' with
+  | nil => simp [markLast] at h
+  | cons a t ih =>
+    cases a with
+    | filler f =>
+      simp only [markLast, Option.map_eq_some_iff] at h
+      obtain ⟨t', ht, rfl⟩ := h
+      simp [BoF.isFiller, ih t' ht]
+    | bound b =>
+      simp only [markLast] at h
+      cases hm : markLast t with
+      | none =>
+        simp only [hm, Option.some.injEq] at h
+        subst h
+        simp [BoF.isFiller]
+      | some t' =>
+        simp only [hm, Option.some.injEq] at h
+        subst h
+        simp [BoF.isFiller, ih t' hm]
+
+theorem fromVec_noAdj (l : List BoF) (l' : UserBoundsList) (h : fromVec l = .ok l')
+    (hl : NoAdjFillers l) : NoAdjFillers l'.list := by
+  unfold fromVec at h
+  cases hm : markLast l with
+  | none => simp [hm] at h
+  | some m =>
+    simp only [hm, Res.ok.injEq] at h
+    subst h
+    exact noAdj_shape _ _ (markLast_shape _ _ hm) hl
+
+/-! ### the format-string scanner -/
+
+/-- invariant of the scanner: the elements found so far (kept reversed) have no two fillers in a
+    row, and outside braces the most recent one is not a filler -/
+def ScanInv (st : ScanSt) : Prop :=
+  NoAdjFillers st.bof.reverse ∧
+    (st.inside = false → ∀ b, st.bof.head? = some b → b.isFiller = false)
+
+theorem pushFiller_noAdj (st : ScanSt) (h : ScanInv st) (hi : st.inside = false) :
+    NoAdjFillers st.pushFiller.reverse := by
+  unfold ScanSt.pushFiller
+  by_cases hp : st.part.isEmpty = true
+  · rw [if_pos hp]; exact h.1
+  · rw [if_neg hp, List.reverse_cons, noAdj_append]
+    refine ⟨h.1, noAdj_singleton _, ?_⟩
+    intro a b ha _
+    rw [List.getLast?_reverse] at ha
+    exact Or.inl (h.2 hi a ha)
+
+theorem splitOnChar_ne_nil (c : Char) (s : List Char) : splitOnChar c s ≠ [] := by
+  cases s with
+  | nil => simp [splitOnChar]
+  | cons x t =>
+    unfold splitOnChar
+    split
+    · simp
+    · split <;> simp
+
+theorem parseAll_ne_nil (l : List (List Char)) (bs : List UserBounds) (hl : l ≠ [])
+    (h : parseAll l = some bs) : bs ≠ [] := by
+  cases l with
+  | nil => exact absurd rfl hl
+  | cons s t =>
+    unfold parseAll at h
+    split at h
+    · simp only [Option.some.injEq] at h; subst h; simp
+    · simp at h
+
+theorem scanStep_inv (w0 : Char) (st st' : ScanSt) (h : ScanInv st) (hs : scanStep w0 st = some st') :
+    ScanInv st' := by
+  unfold scanStep at hs
+  split at hs
+  · simp at hs
+  · rename_i h1
+    split at hs
+    · split at hs
+      · simp at hs
+      · rename_i hin
+        simp only [Option.some.injEq] at hs
+        subst hs
+        exact ⟨pushFiller_noAdj st h (by simpa using hin), by simp⟩
+    · split at hs
+      · split at hs
+        · simp at hs
+        · rename_i bs hbs
+          simp only [Option.some.injEq] at hs
+          subst hs
+          have hne := parseAll_ne_nil _ _ (splitOnChar_ne_nil _ _) hbs
+          constructor
+          · simp only [List.reverse_append, List.reverse_reverse]
+            rw [noAdj_append]
+            refine ⟨h.1, noAdj_map_bound _, ?_⟩
+            intro a b _ hb
+            cases bs with
+            | nil => exact absurd rfl hne
+            | cons x xs =>
+              simp only [List.map_cons, List.head?_cons, Option.some.injEq] at hb
+              subst hb
+              exact Or.inr rfl
+          · intro _ b hb
+            cases hr : (bs.map BoF.bound).reverse with
+            | nil => simp at hr; exact absurd hr hne
+            | cons y ys =>
+              simp only [hr, List.cons_append, List.head?_cons, Option.some.injEq] at hb
+              subst hb
+              have : y ∈ (bs.map BoF.bound).reverse := by rw [hr]; simp
+              simp only [List.mem_reverse, List.mem_map] at this
+              obtain ⟨u, _, rfl⟩ := this
+              rfl
+      · simp only [Option.some.injEq] at hs
+        subst hs
+        exact h
+
+theorem scanEnd_noAdj (st : ScanSt) (l : List BoF) (h : ScanInv st) (hs : scanEnd st = some l) :
+    NoAdjFillers l := by
+  unfold scanEnd at hs
+  split at hs
+  · simp at hs
+  · rename_i hin
+    simp only [Option.some.injEq] at hs
+    subst hs
+    exact pushFiller_noAdj st h (by simpa using hin)
+
+theorem scan_noAdj (s : List Char) (st : ScanSt) (l : List BoF) (h : ScanInv st)
+    (hs : scan s st = some l) : NoAdjFillers l := by
+  fun_induction scan s st with
+  | case1 st => exact scanEnd_noAdj st l h hs
+  | case2 w0 st hst => simp at hs
+  | case3 w0 st st' hst => exact scanEnd_noAdj st' l (scanStep_inv _ _ _ h hst) hs
+  | case4 w0 w1 rest st hw ih => exact ih h hs
+  | case5 w0 w1 rest st hw hst => simp at hs
+  | case6 w0 w1 rest st hw st' hst ih => exact ih (scanStep_inv _ _ _ h hst) hs
+
+theorem parseBoundsList_noAdj (s : List Char) (l : List BoF) (h : parseBoundsList s = some l) :
+    NoAdjFillers l := by
+  unfold parseBoundsList at h
+  split at h
+  · simp only [Option.some.injEq] at h; subst h; trivial
+  · split at h
+    · exact scan_noAdj s _ l ⟨by simp [NoAdjFillers], by simp⟩ h
+    · simp only [Option.map_eq_some_iff] at h
+      obtain ⟨bs, _, rfl⟩ := h
+      exact noAdj_map_bound bs
+
+/-- what `-f` parses to never has two literal texts in a row -/
+theorem boundsListOfString_noAdj (s : List Char) (l : UserBoundsList)
+    (h : boundsListOfString s = .ok l) : NoAdjFillers l.list := by
+  unfold boundsListOfString at h
+  split at h
+  · simp at h
+  · split at h
+    · simp at h
+    · rename_i l0 hl0
+      split at h
+      · simp at h
+      · exact fromVec_noAdj l0 l h (parseBoundsList_noAdj s l0 hl0)
+
+theorem forwardBoundsOf_noAdj (l : UserBoundsList) (bs : List BoF) (h : forwardBoundsOf l = some bs)
+    (hl : NoAdjFillers l.list) : NoAdjFillers bs := by
+  unfold forwardBoundsOf at h
+  split at h
+  · simp at h
+  · split at h
+    · split at h
+      · split at h
+        · rename_i l' hl'
+          simp only [Option.some.injEq] at h
+          subst h
+          exact fromVec_noAdj _ _ hl' hl
+        · simp at h
+      · simp at h
+    · simp at h
+
+theorem streamOptOf_bounds (o : Opt) (so : StreamOpt) (h : streamOptOf o = some so) :
+    forwardBoundsOf o.bounds = some so.bounds := by
+  unfold streamOptOf at h
+  split at h
+  · simp only at h
+    split at h
+    · simp at h
+    · split at h
+      · simp at h
+      · split at h
+        · simp at h
+        · rename_i bs hbs
+          split at h
+          · simp at h
+          · simp only [Option.some.injEq] at h
+            subst h
+            exact hbs
+  · simp at h
+
+theorem streamOptOf_noAdj (o : Opt) (so : StreamOpt) (h : streamOptOf o = some so)
+    (hb : NoAdjFillers o.bounds.list) : NoAdjFillers so.bounds :=
+  forwardBoundsOf_noAdj _ _ (streamOptOf_bounds o so h) hb
+
+/-- **C04 at the level of `main`.**  With `-M`, for options whose bounds come from the `-f`
+    parser, what `main` dispatches to does not depend on how the reads split the input
+    (including whether `-M` is accepted at all). -/
+theorem dispatch_fixedMemory_chunk_independent (o : Opt) (f : List Char)
+    (hf : boundsListOfString f = .ok o.bounds) (segs segs' : List Bytes)
+    (h : segs.flatten = segs'.flatten) :
+    dispatch o true segs = dispatch o true segs' := by
+  unfold dispatch
+  simp only [if_true]
+  cases hso : streamOptOf o with
+  | none => rfl
+  | some so =>
+    simp only
+    rw [chunk_independent so (streamOptOf_noAdj o so hso (boundsListOfString_noAdj f _ hf)) segs segs' h]
 
 end Tuc
